@@ -12,7 +12,7 @@ def run(v, tier):
                       'the dialect of generation/mm-benchmarks: <c>-is-pattern constructors, |- statements, compressed proofs',
                       'slice-proof is judged only for lemmas whose proof MMVerify (TLC) accepts against the whole database']
     reqs = []
-    for i in range(150 if quick else 400):
+    for i in range(150 if quick else 2000):
         text, lemmas = mmgen.database(random.Random(rng.random()), nlemmas=rng.choice([1, 2, 3]), zmode=rng.choice(['none', 'all', 'random', 'dup']),
                                       nconstr=rng.choice([1, 2, 3]), naxioms=rng.choice([2, 3, 4]), nrules=rng.choice([0, 1, 2]),
                                       nested=rng.random() < 0.5, disjoint=rng.random() < 0.65,
@@ -23,7 +23,7 @@ def run(v, tier):
     def retoken(text, ren):
         return '\n'.join(' '.join(ren.get(tok, tok) for tok in line.split(' ')) for line in text.split('\n'))
     hist = []
-    for i in range(4 if quick else 24):
+    for i in range(4 if quick else 100):
         t1, _ = mmgen.database(random.Random(rng.random()), nlemmas=1, zmode='none', nconstr=2, naxioms=2, nrules=1)
         t2, l2 = mmgen.database(random.Random(rng.random()), nlemmas=rng.choice([1, 2]), zmode=rng.choice(['none', 'all']), nconstr=2, naxioms=3, nrules=1)
         t2 = retoken(t2, {'ph3': 'ph9', 'ph3-is-pattern': 'ph9-is-pattern', '\\c0': 'ph3'})
